@@ -19,7 +19,7 @@ CARRY_METHODS = {
     'with_qubit_mapping', 'with_measurement_key_mapping', 'with_key_path', 'with_zeta_chi_gamma',
     'with_z_exponent', 'frozen', 'mutable_copy', 'copy', '__copy__', 'with_parameter', 'with_noise',
     'with_initial_mapper', 'with_fixed', 'unfrozen', 'with_operation', 'with_operations',
-    'without_operations_touching', 'with_sub_gate', 'with_prefix', 'replace', '_with_replaced',
+    'without_operations_touching', 'with_sub_gate', 'with_prefix', 'replace', '_with_replaced', 'replace_key',
 }
 
 # (class qual, method, parameter) -> reason the omission is intended. No wildcards.
@@ -81,6 +81,12 @@ def rebuild_sites(repo, only_methods: Optional[Set[str]] = None):
                 continue
             if any((dotted(d) or '').endswith('classmethod') or (dotted(d) or '').endswith('staticmethod') for d in fn.decorator_list):
                 continue
+            for call in ast.walk(fn):
+                # dataclasses.replace(self, ...) / attrs.evolve(self, ...): every field carried over by construction
+                if isinstance(call, ast.Call) and (dotted(call.func) or '') in ('dataclasses.replace', 'attrs.evolve', 'attr.evolve') \
+                        and call.args and isinstance(call.args[0], ast.Name) and call.args[0].id == 'self' \
+                        and _in_return_position(fn, call, parents):
+                    yield ci, mn, fn, call, set(), False, defaults
             for call in coh.self_constructions(repo, ci, fn):
                 if not _in_return_position(fn, call, parents):
                     continue
